@@ -568,8 +568,8 @@ func modelsRun(run *ev.Run, which string) {
 			defs = append(defs, MKV{K: n, V: s})
 			dm[n] = s
 		}
-		// four fixed shapes every definition set carries (they are reached rarely by the random shapes): an object with ONE
-		// property-count bound, an element type with properties + additionalProperties, a map of such elements, and arrays of scalars whose constraints exclude the zero value
+		// five fixed shapes every definition set carries (they are reached rarely by the random shapes): an object with ONE
+		// property-count bound, an element type with properties + additionalProperties, a map of such elements, arrays of scalars whose constraints exclude the zero value, and required read-only scalars
 		counted := &MS{Ty: "object", Props: []MKV{{K: "a", V: &MS{Ty: "string"}}, {K: "b", V: &MS{Ty: "integer"}}, {K: "c", V: &MS{Ty: "boolean"}}}}
 		if si%2 == 0 {
 			counted.MaxProps = ip(2)
@@ -583,7 +583,10 @@ func modelsRun(run *ev.Run, which string) {
 			{K: "codes", V: &MS{Ty: "array", Items: &MS{Ty: "string", MinLen: ip(1)}}},
 			{K: "ratios", V: &MS{Ty: "array", Items: &MS{Ty: "number", Minimum: i64p(0), ExMin: true}}},
 			{K: "grid", V: &MS{Ty: "array", Items: &MS{Ty: "array", Items: &MS{Ty: "integer", Minimum: i64p(1000)}}}}}}
-		for _, kv := range []MKV{{K: "Counted", V: counted}, {K: "Elem", V: elem}, {K: "Bag", V: bag}, {K: "Items", V: itemsDef}} {
+		ticket := &MS{Ty: "object", Required: []string{"id", "createdBy", "archived", "title"}, Props: []MKV{
+			{K: "id", V: &MS{Ty: "integer", ReadOnly: true}}, {K: "createdBy", V: &MS{Ty: "string", ReadOnly: true}},
+			{K: "archived", V: &MS{Ty: "boolean", ReadOnly: true}}, {K: "title", V: &MS{Ty: "string"}}, {K: "note", V: &MS{Ty: "string"}}}}
+		for _, kv := range []MKV{{K: "Counted", V: counted}, {K: "Elem", V: elem}, {K: "Bag", V: bag}, {K: "Items", V: itemsDef}, {K: "Ticket", V: ticket}} {
 			defs = append(defs, kv)
 			dm[kv.K] = kv.V
 			g.defs = append(g.defs, kv.K)
